@@ -201,8 +201,9 @@ static void show_tbl(int t) {
     }
 }
 
+static uint64_t g_tick_entry_ms;      /* the Hello is timed at the clock reading the tick took on entry (what it stores as last-transmit time) */
 static void hello_cb(void *ni) {
-    fprintf(vp_out, "hello %d @%llu\n", (int)(intptr_t)ni - 1, (unsigned long long)vp_clock_ms);
+    fprintf(vp_out, "hello %d @%llu\n", (int)(intptr_t)ni - 1, (unsigned long long)g_tick_entry_ms);
 }
 
 /* ---------- op interpreter ---------- */
@@ -393,7 +394,7 @@ static void run_line(char *line) {
             /* fsm stepj A input d: the step with the clock moving on by d ms right after the function's first reading */
             int64_t in; uint64_t d;
             if (nt != 5 || !g_fsm[A] || !parse_i64(tok[3], &in) || in < -2147483647LL || in > 2147483647LL || !parse_u64(tok[4], &d) || d > 100000000ULL) { bad(); goto end; }
-            vp_clock_jump = d;
+            vp_clock_jump = d; vp_clock_jump_after = 1;
             if (g_fsm_kind[A] == 0) switch_state_mapping(g_fsm[A], (int)in, "h");
             else if (g_fsm_kind[A] == 1) switch_state_session(g_fsm[A], (int)in, "h");
             else switch_state_enumeration(g_fsm[A], (int)in, "h");
@@ -466,9 +467,13 @@ static void run_line(char *line) {
         else if (!strcmp(tok[1], "update")) session_table_update_complete_status(g_tbl[T]);
         else if (strcmp(tok[1], "dump")) { bad(); goto end; }
         show_tbl(T);
-    } else if (!strcmp(op, "tick")) {
-        /* tick M E T wired|nolast|none ; '-' = NULL object */
-        if (nt != 5) { bad(); goto end; }
+    } else if (!strcmp(op, "tick") || !strcmp(op, "tickj")) {
+        /* tick M E T wired|nolast|none ; '-' = NULL object
+         * tickj M E T port k d: the same with the clock moving on by d ms right after the tick's k-th reading (k = 1, 2) */
+        bool tj = !strcmp(op, "tickj");
+        uint64_t jk = 0, jd = 0;
+        if (nt != (tj ? 7 : 5)) { bad(); goto end; }
+        if (tj && (!parse_u64(tok[5], &jk) || (jk != 1 && jk != 2) || !parse_u64(tok[6], &jd) || jd > 100000000ULL)) { bad(); goto end; }
         int M = !strcmp(tok[1], "-") ? -2 : parse_idx(tok[1], MAXOBJ);
         int E = !strcmp(tok[2], "-") ? -2 : parse_idx(tok[2], MAXOBJ);
         int T = !strcmp(tok[3], "-") ? -2 : parse_idx(tok[3], MAXOBJ);
@@ -480,10 +485,14 @@ static void run_line(char *line) {
         else if (!strcmp(tok[4], "nolast")) { port.network_interface = (void *)(intptr_t)(slot + 1); port.send_hello = hello_cb; }
         else if (!strcmp(tok[4], "none")) pp = NULL;
         else { bad(); goto end; }
+        g_tick_entry_ms = vp_clock_ms;
+        if (tj) { vp_clock_jump = jd; vp_clock_jump_after = (unsigned)jk; }
         automata_tick(M >= 0 ? g_fsm[M] : NULL, E >= 0 ? g_fsm[E] : NULL, T >= 0 ? g_tbl[T] : NULL, pp);
+        if (tj && vp_clock_jump) { vp_clock_ms += vp_clock_jump; vp_clock_jump = 0; vp_clock_jump_after = 1; }
         if (M >= 0) { show_fsm(M); show_map(M); }
         if (E >= 0) { show_fsm(E); show_band(E); fprintf(vp_out, "lasttx %d %llu\n", slot, (unsigned long long)g_last_tx[slot]); }
         if (T >= 0) show_tbl(T);
+        if (tj) fprintf(vp_out, "now %llu\n", (unsigned long long)vp_clock_ms);
     } else if (!strcmp(op, "ev")) {
         /* ev I HEX avail=N tbl=T|- : classifier on an exact-size heap image (ASan sees any read past avail) */
         int I = nt >= 2 ? parse_idx(tok[1], VP_MAX_IFACE) : -1;
